@@ -186,7 +186,11 @@ def check_C(S, p):
     cs = G.random_callset(rng, nsamples=3, nrecords=4, complete_only=True, extras=False)
     data = cs.to_vcf()
     bad = [("unknown", [(cs.samples[0], "A"), ("nobody_" + cs.samples[1], "A")], "arg"), ("unknown-file", [("ghost", None)], "file"),
-           ("empty-file", [], "file")]
+           ("empty-file", [], "file"),
+           # as many entries as the input has columns, one of them absent from the input; and more entries than columns
+           ("unknown-full-length", [(cs.samples[0], "A"), (cs.samples[1], "B"), ("typo_" + cs.samples[2], "A")], "arg"),
+           ("unknown-full-length-file", [(cs.samples[0], None), ("x" + cs.samples[1], None), (cs.samples[2], None)], "file"),
+           ("unknown-longer", [(s_, None) for s_ in cs.samples] + [("extra", None)], "arg")]
     for name, sm, via in bad:
         r = E.cli_create(data, sm, samples_via=via)
         S.count("C_error_requests")
